@@ -535,7 +535,11 @@ impl RegexInstructions for Regex {
     }
 
     fn byte_from(l: impl IntoIterator<Item = u8>) -> Self {
-        RegexInternal::Single(l.into_iter().map(u8::into).collect()).into()
+        // A byte listed twice would yield two copies of the same transition.
+        let mut bytes: [bool; ALPHABET_MAX_SIZE] = [false; ALPHABET_MAX_SIZE];
+        l.into_iter().for_each(|b| bytes[b as usize] = true);
+        let bytes = (0..=(ALPHABET_MAX_SIZE - 1) as u8).filter(|&b| bytes[b as usize]);
+        RegexInternal::Single(bytes.map(u8::into).collect()).into()
     }
 
     fn cat<S: IntoIterator<Item = Self>>(l: S) -> Self {
